@@ -125,6 +125,8 @@ func kindOfType(t types.Type) int {
 // rvInv: representation invariant of a reflect.Value identifier
 func rvInv(v string) string {
 	return and(app("<=", "0", app("rv_kind", v)), app("<=", app("rv_kind", v), "26"), app("<=", "0", app("rv_len", v)),
+		// machine assumption shared with strings and slices: a length fits the address space
+		app("<=", app("rv_len", v), "2305843009213693952"),
 		eq(eq(v, "0"), eq(app("rv_kind", v), "0")),
 		// rv_resolve (jtypes.Resolve: strip non-nil Interface/Ptr wrappers) on a value that wraps nothing; chains are finite
 		implies(not(app("rv_wraps", v)), eq(app("rv_resolve", v), v)),
